@@ -143,7 +143,7 @@ def model(c, tier):
         c.tlc_stats(r)
         if not r.ok:
             c.violation("model: TcpRelay (%s) violates %s" % (k, r.violated or r.error), {"cfg": k, "tail": r.out[-3000:]})
-    names = ["JoinBoth", "NoSinkClose", "IgnoreLinkErr", "DropOnFirstClose"]
+    names = ["JoinBoth", "NoSinkClose", "IgnoreLinkErr", "DropOnFirstClose", "ServerForwardsErr"]
     jobs = [dict(module="MCTcpRelay", cfg="MCTcpRelay_dev_%s.cfg" % k, workers=2, timeout=900) for k in names]
     res = vlib.tlc_parallel(jobs, parallel=4)
     seen = {}
